@@ -177,7 +177,9 @@ def flatten(stim, regs, aw, dw):
                 cycles.append((r.start + c, 0, 0, hval(seed, "gw", len(cycles), dw), tid, "inner-idle"))
             pat = x.get("pat")
             if pat and r.width:
-                whole = {"onehot": 1 << (x["k"] % r.width), "ones": (1 << r.width) - 1, "zero": 0}[pat]
+                w_ = r.width
+                bit = [0, w_ - 1, 63 % w_, 64 % w_, 31 % w_, 32 % w_, x["k"] % w_, (x["k"] * 7) % w_][x["k"] % 8]
+                whole = {"onehot": 1 << bit, "ones": (1 << w_) - 1, "zero": 0}[pat]
                 wd = (whole >> (c * dw)) & ((1 << dw) - 1)
             else:
                 wd = hval(seed, "d", f"{n}.{c}", dw)
